@@ -3,6 +3,7 @@ package utils
 import (
 	"io"
 	"os"
+	"strings"
 
 	"github.com/aquilax/hranoprovod-cli/cmd/hranoprovod-cli/v3/internal/options"
 	"github.com/urfave/cli/v2"
@@ -18,6 +19,11 @@ func NewCmdUtils() CmdUtils {
 		WithFileReaders: func(fileNames []string, cb func([]io.Reader) error) error {
 			result := make([]io.Reader, len(fileNames))
 			for i, fileName := range fileNames {
+				if fileName == "" {
+					// no file (--no-database): an empty input
+					result[i] = strings.NewReader("")
+					continue
+				}
 				f, err := os.Open(fileName)
 				if err != nil {
 					return err
